@@ -263,10 +263,10 @@ def check_order_and_scope(idx: Index, rep: Report) -> None:
 
 
 def check(idx: Index, rep: Report, tier: str) -> str:
-    check_names(idx, rep)
-    check_ident_or_string(idx, rep)
-    check_sections(idx, rep)
-    check_order_and_scope(idx, rep)
+    rep.run(check_names, idx, rep)
+    rep.run(check_ident_or_string, idx, rep)
+    rep.run(check_sections, idx, rep)
+    rep.run(check_order_and_scope, idx, rep)
     return (
         "Regular-language analysis (inclusion / intersection-emptiness with shortest witness, right quotient) between "
         "the name-hint pattern of xdsl/ir/core.py, the image of extract_valid_name, the printer's naming scheme and the "
